@@ -744,6 +744,8 @@ class _GzipMessageDelegate(httputil.HTTPMessageDelegate):
         start_line: httputil.RequestStartLine | httputil.ResponseStartLine,
         headers: httputil.HTTPHeaders,
     ) -> Awaitable[None] | None:
+        # A new message (e.g. the response after a 1xx) starts afresh.
+        self._decompressor = None
         if headers.get("Content-Encoding", "").lower() == "gzip":
             self._decompressor = GzipDecompressor()
             # Downstream delegates will only see uncompressed data,
